@@ -293,6 +293,9 @@ pub fn run(args: &Args, rep: &mut Report) {
         if !args.mine(i) {
             continue;
         }
+        if rep.over_budget() {
+            return;
+        }
         // copy target: the "opposite" configuration
         let other = g[(i + g.len() / 2 + 1) % g.len()].clone();
         let before = rep.get("packs_verified") + rep.get("index_subsets_removed");
